@@ -82,6 +82,8 @@ type task struct {
 	selIdx   int
 	lastRun  int
 	created  int
+	timers   int
+	timer    bool
 }
 
 // Outcome of one scheduled execution.
@@ -469,6 +471,9 @@ func Run(ctx *mc.Ctx, opt Options, main func()) Outcome {
 		}
 		if opt.RoundRobin {
 			sort.SliceStable(en, func(i, j int) bool {
+				if en[i].timer != en[j].timer {
+					return en[j].timer
+				}
 				if en[i].lastRun != en[j].lastRun {
 					return en[i].lastRun < en[j].lastRun
 				}
@@ -548,6 +553,25 @@ func Go(fn func()) {
 	p.spawns++
 	p.mix("go")
 	t := S.newTask(name, fn)
+	S.launch(t)
+	p.kind = opSpawn
+	S.park(p)
+}
+
+// GoTimer starts a task that stands for a timer: it is named so that it sorts after every ordinary task (in the
+// default schedule a timer fires only when nothing else can run) and does not disturb the spawn-path names of
+// ordinary tasks.
+func GoTimer(fn func()) {
+	if !Active() {
+		go fn()
+		return
+	}
+	p := S.cur
+	name := fmt.Sprintf("~%s.t%d", p.name, p.timers)
+	p.timers++
+	p.mix("timer")
+	t := S.newTask(name, fn)
+	t.timer = true
 	S.launch(t)
 	p.kind = opSpawn
 	S.park(p)
